@@ -65,6 +65,11 @@ func Initialization(goal ref.Term) ProgStep {
 	return ProgStep{Kind: "initialization", Goal: ref.Enc(goal), Text: ":- initialization(" + ref.Text(goal) + ")."}
 }
 
+// ExpandAssert builds a step that adds a grammar rule through expand_term/2 and assertz/1.
+func ExpandAssert(rule ref.Term) ProgStep {
+	return ProgStep{Kind: "expand_assert", Goal: ref.Enc(rule), Text: "expand_term(" + ref.Text(rule) + ", C), assertz(C)."}
+}
+
 // StepResult is the compared observation of one step.
 type StepResult struct {
 	Impl     Outcome  `json:"impl"`
@@ -143,6 +148,29 @@ func RunProgOn(im *Impl, pc *ProgCase) (results []StepResult, firstDiff int, inc
 					refFailed = "directive not supported by this runner"
 					continue
 				}
+				if g, ok := ce.(*ref.Cmp); ok && g.F == "-->" && len(g.Args) == 2 {
+					func() {
+						defer func() {
+							if x := recover(); x != nil {
+								refFailed = fmt.Sprint(x)
+							}
+						}()
+						hd := ref.Deref(g.Args[0])
+						if hc, ok := hd.(*ref.Cmp); ok && hc.F == "," && len(hc.Args) == 2 {
+							hd = ref.Deref(hc.Args[0])
+						}
+						n, a, _ := ref.Indicator(hd)
+						k := "-->" + ref.Key(n, a)
+						if !seenPred[k] {
+							seenPred[k] = true
+							if staged.Grammar != nil {
+								delete(staged.Grammar, ref.Key(n, a))
+							}
+						}
+						staged.AddGrammar(ce)
+					}()
+					continue
+				}
 				func() {
 					defer func() {
 						if x := recover(); x != nil {
@@ -178,6 +206,29 @@ func RunProgOn(im *Impl, pc *ProgCase) (results []StepResult, firstDiff int, inc
 				r.Verdict, r.Why = "differ", "load failed in the implementation"
 			} else {
 				r.Verdict = "agree"
+			}
+		case "expand_assert":
+			// a grammar rule added through expand_term/2 + assertz/1
+			rule := ref.Dec(st.Goal, map[string]*ref.Var{})
+			st.Text = "expand_term(" + ref.Text(rule) + ", Clause), assertz(Clause)."
+			r.Impl = im.Query(st.Text, nil, 2)
+			r.RefState = "ok"
+			r.Verdict = "agree"
+			func() {
+				defer func() {
+					if x := recover(); x != nil {
+						r.RefState, r.Verdict, r.Why = "unsupported", "inconclusive", fmt.Sprint(x)
+						inconclusive = true
+					}
+				}()
+				db.AddGrammar(ref.ExpandStrings(rule, dq))
+			}()
+			if inconclusive {
+				results = append(results, r)
+				return
+			}
+			if r.Impl.Status != "exhausted" || len(r.Impl.Answers) != 1 {
+				r.Verdict, r.Why = "differ", "expand_term/assertz of the grammar rule did not succeed exactly once: "+r.Impl.String()
 			}
 		case "directive", "initialization":
 			vars := map[string]*ref.Var{}
